@@ -297,9 +297,15 @@ def _result_spec(draw, name, nvar, exotic, tier):
         family = draw(st.sampled_from(fams))
     hist = [draw(st.lists(_obs(typ, choice_num, exotic, family), min_size=1,
                           max_size=nmax)) for _ in range(nvar)]
+    # a result that was never updated (what combine_simulation_results leaves
+    # for a parameter value without source) and a result whose last operation
+    # was a merge with such an empty result
+    if draw(st.integers(0, 9)) == 0:
+        hist[draw(st.integers(0, nvar - 1))] = []
     return dict(name=name, type=typ, choice_num=choice_num,
                 acc=draw(st.booleans()), create=draw(st.booleans()),
-                histories=hist)
+                histories=hist,
+                tail=draw(st.sampled_from([None, None, None, "merge_empty"])))
 
 
 
@@ -502,7 +508,7 @@ def _make_result(Result, spec, hist):
     acc = bool(spec["acc"])
     obs = [(_build(v), None if t is None else _build(t)) for v, t in hist]
     start = 0
-    if spec["create"]:
+    if spec["create"] and obs:
         v, t = obs[0]
         if spec["type"] == "CHOICE":
             r = Result.create(spec["name"], code, v, spec["choice_num"],
@@ -521,6 +527,9 @@ def _make_result(Result, spec, hist):
             r.update(v, t)
         else:
             r.update(v)
+    if spec.get("tail") == "merge_empty":
+        r.merge(Result(spec["name"], code, accumulate_values=acc,
+                       choice_num=spec["choice_num"]))
     return r
 
 
